@@ -17,7 +17,8 @@ RULE = ("Hypothesis draws an HPD system: A = Q diag(lam) Q^H (real/complex; spec
         "product-counting wrapper (steps <= max_iters, info['iterations']-1 == steps, early stop => every column below "
         "tol(1+|r0|/|b|), one step fewer => not below, history finite); (c) zero rhs => exactly zero; (d) scaling by 2^j is "
         "bitwise linear; (e) joint solve == per-column solves at fixed k; (f) converged answer independent of the "
-        "preconditioner; also through inv(A, CG(...)) @ b. Non-trivial: truncated run (k < n), preconditioned, non-zero x0, "
+        "preconditioner; (g) with a real tolerance and columns of different difficulty, every column is the k-step optimum for "
+        "the k steps actually run; also through inv(A, CG(...)) @ b. Non-trivial: truncated run (k < n), preconditioned, non-zero x0, "
         "multi-column with spread norms, or complex. Right-hand sides are dense, unit vectors, or sparse with rows that are "
         "exactly zero in every column; after every call the caller's b and x0 must be bit-identical.")
 ASSUMPTIONS = [
@@ -26,7 +27,7 @@ ASSUMPTIONS = [
     "info['iterations'] counts condition evaluations = steps + 1 (the convention tests/algorithms/test_lanczos.py relies on)",
     "bulk payloads (unitary bases, right-hand sides) come from numpy.default_rng(seed) with the seed a Hypothesis draw; all structural parameters are direct draws",
 ]
-SUBS = ["optimal", "optimal", "stopping", "stopping", "zero_rhs", "scaling", "columns", "precond_indep", "via_inv"]
+SUBS = ["optimal", "optimal", "stopping", "stopping", "zero_rhs", "scaling", "columns", "precond_indep", "via_inv", "optimal_tol"]
 
 
 @st.composite
@@ -64,6 +65,19 @@ def cases(draw, tier):
         case["zero_col"] = False
     if sub == "scaling":
         case["j"] = draw(st.integers(-20, 20))
+    if sub == "optimal_tol":
+        # a real tolerance stops the run after k steps (counted): every column is then its own k-step optimum, also the
+        # columns that met the tolerance earlier (columns of different difficulty: few eigen-directions vs generic)
+        case["n"] = n = draw(st.integers(4, 12))
+        case["nrhs"] = draw(st.integers(2, 3))
+        case["norm_exp"] = [draw(st.integers(-3, 3)) for _ in range(case["nrhs"])]
+        case["kappa"] = 10.0 ** draw(st.sampled_from([0.5, 1]))
+        case["spec"] = draw(st.sampled_from(["uniform", "geometric"]))
+        case["tol_exp"] = draw(st.integers(-6, -1))
+        case["max_iters"] = draw(st.integers(n, 2 * n))
+        case["zero_col"], case["single"], case["x0"] = False, False, draw(st.sampled_from(["zero", "none"]))
+        case["rhs_kind"] = "dense"
+        case["easy_cols"] = [draw(st.integers(1, 2)) if draw(st.booleans()) else 0 for _ in range(case["nrhs"])]
     if sub == "columns":
         case["nrhs"] = draw(st.integers(2, 3))
         case["norm_exp"] = [draw(st.integers(-3, 3)) for _ in range(case["nrhs"])]
@@ -93,6 +107,10 @@ def build_system(case):
         B[rng.permutation(n)[:max(1, n // 2)], :] = 0
         if not np.all(np.linalg.norm(B, axis=0) > 0):
             B[-1, :] = 1.0
+    for j, g in enumerate(case.get("easy_cols", [])[:k]):
+        if g:  # a combination of g eigenvectors: CG is exact for this column after g steps
+            idx = rng.permutation(n)[:g]
+            B[:, j] = Q[:, idx] @ (1.0 + rng.random(g))
     B = B / np.linalg.norm(B, axis=0) * (10.0 ** np.array(case["norm_exp"][:k], dtype=float))
     if case.get("zero_col"):
         B[:, -1] = 0
@@ -199,6 +217,24 @@ def check(case, out):
                 out.fail(sub, site, "nonfinite", f"col {j}")
             elif e_cg > e_opt + 1e-6 * scale:
                 out.fail(sub, site, "not_optimal", f"col {j}: A-norm error {e_cg:.3e} vs optimum {e_opt:.3e} (scale {scale:.3e}, k={k}, n={n}, |b|={np.linalg.norm(bj):.2e})")
+        return
+
+    if sub == "optimal_tol":
+        res = call(lambda: run_cg(A, B, X0, P, tol, k, x0_none))
+        if res is None:
+            return
+        x, info, op = res
+        steps = op.calls - 1
+        out.label("steps:%d" % min(steps, 12))
+        for j, (xj, bj, x0j) in enumerate(zip(col_list(np.asarray(x)), col_list(B), col_list(X0))):
+            xstar = np.linalg.solve(A, bj)
+            xopt = KR.cg_optimal(A, Pd, bj, x0j, steps)
+            e_opt, e_cg = KR.anorm(A, xopt - xstar), KR.anorm(A, xj - xstar)
+            scale = max(KR.anorm(A, x0j - xstar), KR.anorm(A, xstar), 1e-300)
+            if not np.all(np.isfinite(xj)):
+                out.fail(sub, site, "nonfinite", f"col {j}")
+            elif steps <= 12 and e_cg > e_opt + 1e-6 * scale:
+                out.fail(sub, site, "not_optimal_at_returned_step", f"col {j}: A-norm error {e_cg:.3e} vs optimum {e_opt:.3e} over K_{steps} (scale {scale:.3e}, tol={tol:g}, n={n})")
         return
 
     if sub == "stopping":
